@@ -448,6 +448,10 @@ func runC08(c *Ctx) {
 		c.Check("C08.O1", "createUpdatePatches:remove-before-add", len(sites) == 6 && okKinds && len(bad) == 0, cup.Pos(), fmt.Sprintf("append sites %v; order violations %v", ks, bad))
 	}
 	c.Min("C08.O1", 1)
+
+	// ---- X3: the signers the builders use and the verifier the parser/applier use agree per curve
+	c.signerVerifierTables("C08.X3")
+	c.Min("C08.X3", 12)
 	c.Assume("acceptance of the built request by the parser and the resulting document are not decided (behavioural); did-go document serialisation is outside the claim")
 }
 
